@@ -179,7 +179,7 @@ def run(ck):
             if not ordinary:
                 break
             a, c3 = ck.rng.choice(ordinary), ck.rng.choice(ordinary + special)
-            if okseam(a, b) and okseam(b, c3):
+            if okseam(a, b) and okseam(b, c3) and not re.search(r"</mj-text\s+>", a["inner"] + b["inner"] + c3["inner"]):
                 triples.append((a, b, c3))
     tsrcs = ["<mjml><mj-body>%s%s%s</mj-body></mjml>" % (a["inner"], b["inner"], c3["inner"]) for a, b, c3 in triples]
     res3, dead3 = common.run_jobs(hb, "render", [{"id": i, "src": s_} for i, s_ in enumerate(tsrcs)])
